@@ -39,6 +39,7 @@ class Plan:
         self.fired = []
         self.enabled = True
         self.on_point = on_point
+        self.on_fire = None
         self.conns = []
         self.arraysize = None      # override for cursor.arraysize
         self.log_sql = []
@@ -64,6 +65,8 @@ class Plan:
                 if f is not None:
                     fired = f
                     self.fired.append((k, n, f, conn.id if conn is not None else -1))
+                    if self.on_fire is not None:
+                        self.on_fire(k, n, f, conn)
         self.calls.append((kind, head, conn.id if conn is not None else -1, self.count[kind]))
         return fired
 
